@@ -27,20 +27,34 @@ let fields_string (fs : (z * bool) list) : string =
     String.concat "," (List.map (fun (k, b) -> Printf.sprintf "%s:%d" (string_of_z k) (if b then 1 else 0)) fs)
 
 (* model value token; numbers are kept as rationals: "q<num>/<den>" *)
-let value_token (v : rvalue) : string =
+let value_token_r (r : reg option) (v : rvalue) : string =
   match v with
-  | RVNum q -> Printf.sprintf "q%s/%s" (string_of_z q.qnum) (string_of_z (Zpos q.qden))
+  | RVNum (q, raw) ->
+    (* the exact rational, and — when the register is known — the float64 the code must return
+       (Float.number_value_bits, Flocq binary64), as 16 hex digits *)
+    let bits = (match r with
+        | Some r -> "#" ^ hex64_of_z (number_value_bits r raw)
+        | None -> "") in
+    Printf.sprintf "q%s/%s%s" (string_of_z q.qnum) (string_of_z (Zpos q.qden)) bits
   | RVText t -> "t" ^ hex_of_bytes t
   | RVEnum (i, n) -> Printf.sprintf "e%s:%s" (string_of_z i) (hex_of_coqstring n)
   | RVFields fs -> "f" ^ fields_string fs
 
+let value_token (v : rvalue) : string = value_token_r None v
+
 (* compare an implementation token with a model token *)
 let token_eq (impl : string) (model : string) : bool =
   if String.length model > 0 && model.[0] = 'q' && String.length impl > 0 && impl.[0] = 'q' then begin
-    match String.split_on_char '/' (String.sub model 1 (String.length model - 1)) with
-    | [ n; d ] ->
-      let q = float_of_string n /. float_of_string d in
-      (try close (float_of_string (String.sub impl 1 (String.length impl - 1))) q with _ -> false)
+    let body = String.sub model 1 (String.length model - 1) in
+    let body, bits = (match String.index_opt body '#' with
+        | Some i -> String.sub body 0 i, Some (String.sub body (i + 1) (String.length body - i - 1))
+        | None -> body, None) in
+    let implf = (try Some (float_of_string (String.sub impl 1 (String.length impl - 1))) with _ -> None) in
+    match String.split_on_char '/' body, implf, bits with
+    | [ _; _ ], Some f, Some b ->
+      (* bit-exact: Go printed 17 significant digits, which identify the float64 *)
+      Printf.sprintf "%016Lx" (Int64.bits_of_float f) = b
+    | [ n; d ], Some f, None -> close f (float_of_string n /. float_of_string d)
     | _ -> false
   end else impl = model
 
@@ -91,7 +105,7 @@ let model_op (cf : cfg) (st : mstate) (op : string) : string =
           let (res, s') = read_register cf (idle = "i") r st.vd in
           st.vd <- s';
           (match res with
-           | Ok v -> value_token v
+           | Ok v -> value_token_r (Some r) v
            | Err e -> err_class e ^ (match e with EWrap (n, _) when hex_of_bytes n = hex_of_bytes (List.map (fun c -> byte_of_int (Char.code c)) (List.init (String.length name) (String.get name))) -> ":1" | _ -> ":0")
            | Panic -> "P"
            | OutOfFuel -> "F")))
@@ -112,14 +126,14 @@ let model_op (cf : cfg) (st : mstate) (op : string) : string =
        if variant = "s" then begin
          let ((e, delivered), s') = stream_register_list cf h rl ca st.vd in
          st.vd <- s';
-         let items = List.map (fun (r, v) -> name_of r ^ "=" ^ value_token v) delivered in
+         let items = List.map (fun (r, v) -> name_of r ^ "=" ^ value_token_r (Some r) v) delivered in
          "S" ^ endtok_of e ^ "|" ^ String.concat "~" items
        end else begin
          (* the map variant is the Coq model read_register_list (Api/Maps.v): four
             association maps with Go's m[k] = v semantics; iteration order is not observable *)
          let ((e, m), s') = read_register_list cf rl ca st.vd in
          st.vd <- s';
-         let l = List.concat_map (fun k -> List.map (fun (n, v) -> ostring_of_coq n ^ "=" ^ value_token v) (rv_map k m))
+         let l = List.concat_map (fun k -> List.map (fun (n, v) -> ostring_of_coq n ^ "=" ^ value_token_r (find_reg rl (ostring_of_coq n)) v) (rv_map k m))
              [KNum; KText; KEnum; KFields] in
          "M" ^ endtok_of e ^ "|" ^ String.concat "~" (List.sort compare l) ^ "|1"
        end)
@@ -164,7 +178,7 @@ let c09_expected (r : reg) (raw : byte list) : string =
   if k = 1 then begin
     let n = if r.r_signed then le_int raw else Some (le_uint raw) in
     match n with
-    | Some n -> value_token (RVNum (number_value r n))
+    | Some n -> value_token_r (Some r) (RVNum (number_value r n, n))
     | None -> "Eother:1"
   end else if k = 2 then value_token (RVText (trim_space (strip_nul raw)))
   else if k = 3 then begin
@@ -231,10 +245,12 @@ let judge (c : scase) (ops : string list) (impl_results : string list) (written 
              | None -> ())
           | None -> ())
        | "read" :: name :: _ ->
-         bump applicable "C09";
-         (* transport / device errors: wrapped with the register name and still matchable *)
+         (* transport / device errors: wrapped with the register name and still matchable;
+            the case's "prop" tag says which property the expectation belongs to (C05 or C09) *)
+         let prop = (try List.assoc "prop" c.tags with Not_found -> "C09") in
+         bump applicable prop;
          let exp = (try List.assoc ("x" ^ string_of_int i) c.tags with Not_found -> "") in
-         if exp <> "" && impl <> exp then report "C09" c.id (Printf.sprintf "register %s: got %s expected %s" name impl exp)
+         if exp <> "" && impl <> exp then report prop c.id (Printf.sprintf "register %s: got %s expected %s" name impl exp)
        | [ "stream"; hmask; spec; cancel; variant ] ->
          bump applicable "C10";
          (match st.api with
@@ -286,6 +302,12 @@ let judge (c : scase) (ops : string list) (impl_results : string list) (written 
     bump fails "MISMATCH";
     if Hashtbl.find fails "MISMATCH" <= 20 then Printf.printf "MISMATCH %s frames impl=%s model=%s\n" c.id (String.concat "," written) (String.concat "," mw)
   end;
+  (* independent expectation on the number of command frames (C05: one frame per failing read) *)
+  (match (try Some (int_of_string (List.assoc "frames" c.tags)) with Not_found -> None) with
+   | Some n when n <> List.length written ->
+     report (try List.assoc "prop" c.tags with Not_found -> "C09") c.id
+       (Printf.sprintf "%d command frames written, expected %d (a device-reported error must not be retried)" (List.length written) n)
+   | _ -> ());
   if List.mem "P" impl_results then report "C06" c.id "panic in a register-API call";
   if List.mem "H" impl_results then report "C06" c.id "register-API call hangs (unbounded reads)";
   ignore nw; ignore re
@@ -312,7 +334,7 @@ let run (casefile : string) (obsfile : string) =
       Printf.printf "JUDGE-SUMMARY %s applicable=%d failures=%d\n" p
         (try Hashtbl.find applicable p with Not_found -> 0)
         (try Hashtbl.find fails p with Not_found -> 0))
-    [ "C06"; "C09"; "C10"; "C11"; "MISMATCH" ];
+    [ "C05"; "C06"; "C09"; "C10"; "C11"; "MISMATCH" ];
   Printf.printf "JUDGE-CASES %d\n" !n
 
 (* print the model's result tokens for API cases (used by the CLI check) *)
